@@ -121,6 +121,21 @@ def main():
     fams.setdefault(dumps[k]["_fam"], []).append(k)
   chosen = []
   for fam, ks in sorted(fams.items()):
+    if prop == "C15" and fam != "random":
+      # only scenarios in which a constant really is shared, and every (modes of the operators, predicted outcome) combination of
+      # them - e.g. "dynamic-range reader first, weight-only reader second, accepted" - gets its share of the budget
+      strata = {}
+      for k in ks:
+        sc = dumps[k]["scn"]
+        groups = [g for sub in sc["subs"] for g in sub.get("tbuf", []) if g]
+        shared_t = any(sum(1 for o in sub["ops"] if t in o["ins"]) >= 2 for sub in sc["subs"] for t, r in enumerate(sub["trole"]) if r in ("w", "c", "b"))
+        if not shared_t and len(groups) == len(set(groups)):
+          continue
+        strata.setdefault((tuple(m["m"] for ms in sc["mode"] for m in ms), dumps[k].get("pc")), []).append(k)
+      per = max(2, -(-max(80, limit // len(fams)) // max(1, len(strata))))
+      for _, sk in sorted(strata.items()):
+        chosen += common.sample_keep(sk, per, args.seed)
+      continue
     chosen += common.sample_keep(ks, max(80, limit // len(fams)), args.seed)
   t0 = time.time()
   rng = np.random.default_rng(args.seed)
